@@ -137,6 +137,21 @@ func (w *World) verifyFunction(fn *ssa.Function, ct *Contract, tag string, safeA
 		vc.obls = append(vc.obls, &Obligation{Name: fmt.Sprintf("%s#frame@%s", shortFn(fn), rc.anchor), Kind: "frame", Guard: rc.reach, Goal: goal, NFacts: len(vc.facts), AssumeIdx: -1, Pos: rc.pos, Expect: "unsat", Func: shortFn(fn),
 			Desc: "ghost state " + rc.key + " is modified at a key not listed in modifies and not restored before returning"})
 	}
+	// loop clauses must name a loop that exists
+	if ct != nil {
+		for n, cls := range ct.Loops {
+			found := false
+			for _, li := range fr.loops {
+				if li.ordinal == n {
+					found = true
+				}
+			}
+			if !found && len(cls) > 0 {
+				vc.obls = append(vc.obls, &Obligation{Name: fmt.Sprintf("%s#inv-init@no-such-loop%d", shortFn(fn), n), Kind: "inv-init", Guard: "true", Goal: "false", AssumeIdx: -1, Expect: "unsat", Func: shortFn(fn),
+					Desc: fmt.Sprintf("the contract has clauses for loop %d, but the function has no such loop (the loop it guards is gone)", n)})
+			}
+		}
+	}
 	// every "at <anchor> assert" clause must have matched a program point
 	if ct != nil {
 		for i, cl := range ct.Asserts {
